@@ -202,15 +202,25 @@ class _K(object):
             dt, mn, mx = gen_doc.dtype_of(node)
             return _present(cur) and mn > 1 and node.usage != 'N' and _plain_site(i, node, ep, sp, cur, doc) and not node.codes and not node.external and \
                 (dt in ('AN', 'ID', 'R') or dt[0] == 'N') and not node.regex
-        s = _sites(rng, doc, pred)
-        if not s:
+        cand = [x for x in element_sites(doc, None) if pred(*x)]
+        if not cand:
             return None
+        numeric = [x for x in cand if gen_doc.dtype_of(x[1])[0] == 'R' or gen_doc.dtype_of(x[1])[0][0] == 'N']
+        s = rng.choice(numeric) if (numeric and rng.random() < 0.7) else rng.choice(cand)     # (numeric elements with a minimum above 1 are rare)
         i, node, ep, sp, cur = s
         dt, mn, mx = gen_doc.dtype_of(node)
         v = _alpha_for(dt) * (mn - 1)
+        note = None
+        if (dt == 'R' or dt[0] == 'N') and rng.random() < 0.6:
+            # the length of a numeric value is its number of digits: sign and decimal point do not count towards the minimum
+            opts = ['-' + '7' * (mn - 1)]
+            if dt == 'R' and mn >= 3:
+                opts += ['7' * (mn - 2) + '.7', '-' + '7' * (mn - 3) + '.7' if mn >= 4 else '7.' + '7' * (mn - 2)]
+            v = rng.choice(opts)
+            note = 'numeric:characters-reach-the-minimum-digits-do-not'
         d = clone(doc)
         set_value(d.recs[i], ep, sp, v)
-        return _mk(d, 'too_short', i, ep, sp, ['4'], v)
+        return _mk(d, 'too_short', i, ep, sp, ['4'], v, note=note)
 
     @staticmethod
     def bad_code(rng, doc):
